@@ -15,6 +15,7 @@ import (
 	"fmt"
 	"io"
 	"net"
+	"os"
 	"sort"
 	"strings"
 	"sync"
@@ -328,6 +329,7 @@ type waitCall struct {
 	class string // data | written | accepted | timeout | closed | sockerr | err:<text>
 	n     int
 	at    time.Time
+	early bool // a timeout returned before the deadline in force (or with none in force)
 }
 
 func waitClassify(okClass string, err error) string {
@@ -434,7 +436,11 @@ func waitClasses(calls []*waitCall) []string {
 	var out []string
 	for _, c := range calls {
 		if c.returned() {
-			out = append(out, c.class)
+			if c.class == "timeout" && c.early {
+				out = append(out, "timeout-early")
+			} else {
+				out = append(out, c.class)
+			}
 		} else {
 			out = append(out, "blocked")
 		}
@@ -478,3 +484,605 @@ type waitScenario struct {
 func (sc *waitScenario) sep() { time.Sleep(waitSep + sc.jitter) }
 
 func waitJoin(ss []string) string { return strings.Join(ss, ",") }
+
+// ---------------------------------------------------------------------------- the three sides
+
+// waitSide abstracts what differs between Read, Write and Accept in a scenario.
+type waitSide struct {
+	kind    string
+	okClass string
+	dlKey   func(seq string) string           // violation key of an ignored deadline change
+	prepare func(e *waitEnv) error            // make the next calls block
+	call    func(e *waitEnv, i int) *waitCall // one caller
+	wake    func(e *waitEnv, n int) error     // make what n callers wait for possible
+	setDl   func(e *waitEnv, t time.Time)
+	closeIt func(e *waitEnv)
+	failIt  func(e *waitEnv)
+}
+
+var waitReadSide = waitSide{
+	kind: "Read", okClass: "data",
+	dlKey:   func(seq string) string { return "deadline-" + seq + "-ignored:Read" },
+	prepare: func(e *waitEnv) error { return nil },
+	call:    func(e *waitEnv, i int) *waitCall { return e.goRead(e.cs, i, 256) },
+	wake: func(e *waitEnv, n int) error {
+		// n messages in ONE datagram: hold the client's inbound side, write, release merged
+		e.cconn.gate()
+		for i := 0; i < n; i++ {
+			if _, err := e.ss.Write([]byte(fmt.Sprintf("message-%d", i))); err != nil {
+				return err
+			}
+		}
+		time.Sleep(30 * time.Millisecond)
+		k := e.cconn.release(true)
+		e.logf("released %d datagram(s) carrying %d message(s)", k, n)
+		return nil
+	},
+	setDl:   func(e *waitEnv, t time.Time) { e.cs.SetReadDeadline(t) },
+	closeIt: func(e *waitEnv) { e.cs.Close() },
+	failIt:  func(e *waitEnv) { e.cconn.failReads() },
+}
+
+const waitWnd = 2
+
+var waitWriteSide = waitSide{
+	kind: "Write", okClass: "written",
+	dlKey: func(seq string) string { return "deadline-" + seq + "-ignored:Write" },
+	prepare: func(e *waitEnv) error {
+		// nothing reaches the server any more, so nothing is acknowledged; fill the send window
+		e.sconn.gate()
+		e.cs.SetWindowSize(waitWnd, 32)
+		// (the window is open, so these writes do not block; deadlines are left untouched)
+		for i := 0; i < waitWnd; i++ {
+			if _, err := e.cs.Write([]byte("fill")); err != nil {
+				return fmt.Errorf("filling the window: %v", err)
+			}
+		}
+		return nil
+	},
+	call: func(e *waitEnv, i int) *waitCall { return e.goWrite(e.cs, i, []byte(fmt.Sprintf("w-%d", i))) },
+	wake: func(e *waitEnv, n int) error {
+		k := e.sconn.release(false)
+		e.logf("window opens: %d held datagram(s) delivered to the peer", k)
+		return nil
+	},
+	setDl:   func(e *waitEnv, t time.Time) { e.cs.SetWriteDeadline(t) },
+	closeIt: func(e *waitEnv) { e.cs.Close() },
+	failIt:  func(e *waitEnv) { e.cconn.failWrites() },
+}
+
+var waitAcceptSide = waitSide{
+	kind: "Accept", okClass: "accepted",
+	dlKey:   func(seq string) string { return "accept-deadline-ignored" },
+	prepare: func(e *waitEnv) error { return nil },
+	call:    func(e *waitEnv, i int) *waitCall { return e.goAccept(i) },
+	wake: func(e *waitEnv, n int) error {
+		for i := 0; i < n; i++ {
+			if err := e.newPeer(i); err != nil {
+				return err
+			}
+		}
+		return nil
+	},
+	setDl:   func(e *waitEnv, t time.Time) { e.l.SetReadDeadline(t) },
+	closeIt: func(e *waitEnv) { e.l.Close() },
+	failIt:  func(e *waitEnv) { e.sconn.failReads() },
+}
+
+// start n callers after prepare; wait one separation; all must still be blocked.
+func waitStart(e *waitEnv, r *waitResult, sc *waitScenario, sd *waitSide, n int) []*waitCall {
+	if err := sd.prepare(e); err != nil {
+		r.setupErr = err
+		return nil
+	}
+	var calls []*waitCall
+	for i := 0; i < n; i++ {
+		calls = append(calls, sd.call(e, i))
+	}
+	sc.sep()
+	return calls
+}
+
+// every call must be parked now; a call that has returned had nothing to return for
+func waitExpectBlocked(e *waitEnv, r *waitResult, sd *waitSide, calls []*waitCall, when string) bool {
+	r.check("still-blocked-while-nothing-happened")
+	r.Outcome = waitClasses(calls)
+	if b := waitBlocked(calls); b != len(calls) {
+		r.violate("spurious-return:"+sd.kind, "%s: %d of %d %s calls returned (%s) %s although nothing they wait for had happened",
+			e.name, len(calls)-b, len(calls), sd.kind, waitJoin(waitClasses(calls)), when)
+		return false
+	}
+	r.Blocked = true
+	return true
+}
+
+// all calls return `class` by `by`; none of the timeouts earlier than `notBefore`
+func waitExpectAll(e *waitEnv, r *waitResult, sd *waitSide, calls []*waitCall, class string, notBefore time.Time, by time.Time, keyMissing, keyEarly, what string) {
+	waitAll(calls, by)
+	r.check(what)
+	for _, c := range calls {
+		if c.returned() && c.class == "timeout" && !notBefore.IsZero() && c.at.Before(notBefore) {
+			c.early = true
+		}
+	}
+	r.Outcome = waitClasses(calls)
+	for _, c := range calls {
+		if !c.returned() {
+			r.violate(keyMissing, "%s: %s#%d still blocked %v after %s (calls: %s)", e.name, c.kind, c.idx, waitMargin, what, waitJoin(waitClasses(calls)))
+			return
+		}
+	}
+	for _, c := range calls {
+		if c.class == "timeout" && !notBefore.IsZero() && c.at.Before(notBefore) {
+			r.violate(keyEarly, "%s: %s#%d returned a timeout %v before the deadline in force", e.name, c.kind, c.idx, notBefore.Sub(c.at).Round(time.Millisecond))
+			return
+		}
+	}
+	for _, c := range calls {
+		if c.class != class {
+			r.violate("wrong-result:"+sd.kind+":"+class, "%s: %s#%d returned %s, expected %s (%s)", e.name, c.kind, c.idx, c.class, class, what)
+			return
+		}
+	}
+}
+
+// ---------------------------------------------------------------------------- scenarios
+
+func waitScWake(sd *waitSide, n int, key string) func(*waitEnv, *waitResult, *waitScenario) {
+	return func(e *waitEnv, r *waitResult, sc *waitScenario) {
+		calls := waitStart(e, r, sc, sd, n)
+		if calls == nil || !waitExpectBlocked(e, r, sd, calls, "before the event") {
+			return
+		}
+		if err := sd.wake(e, n); err != nil {
+			r.setupErr = err
+			return
+		}
+		waitExpectAll(e, r, sd, calls, sd.okClass, time.Time{}, time.Now().Add(waitMargin), key, "", "what the calls wait for became possible for all of them")
+	}
+}
+
+func waitScDeadlineBefore(sd *waitSide, n int, both bool) func(*waitEnv, *waitResult, *waitScenario) {
+	return func(e *waitEnv, r *waitResult, sc *waitScenario) {
+		if err := sd.prepare(e); err != nil {
+			r.setupErr = err
+			return
+		}
+		dl := time.Now().Add(waitDl)
+		if both {
+			e.cs.SetDeadline(dl)
+		} else {
+			sd.setDl(e, dl)
+		}
+		var calls []*waitCall
+		for i := 0; i < n; i++ {
+			calls = append(calls, sd.call(e, i))
+		}
+		sc.sep()
+		r.Blocked = waitBlocked(calls) == n
+		waitExpectAll(e, r, sd, calls, "timeout", dl, dl.Add(waitMargin), "deadline-before-call-ignored:"+sd.kind, "timeout-before-deadline:"+sd.kind, "the deadline set before the call expired")
+	}
+}
+
+func waitScPastBefore(sd *waitSide, n int) func(*waitEnv, *waitResult, *waitScenario) {
+	return func(e *waitEnv, r *waitResult, sc *waitScenario) {
+		if err := sd.prepare(e); err != nil {
+			r.setupErr = err
+			return
+		}
+		sd.setDl(e, time.Now().Add(-time.Second))
+		var calls []*waitCall
+		for i := 0; i < n; i++ {
+			calls = append(calls, sd.call(e, i))
+		}
+		waitExpectAll(e, r, sd, calls, "timeout", time.Time{}, time.Now().Add(waitMargin), "deadline-past-ignored:"+sd.kind, "", "a deadline in the past was set before the call")
+	}
+}
+
+// seq: none-then-set | set-later | set-earlier | set-zero-set | set-past
+func waitScDeadlineChange(sd *waitSide, seq string, n int) func(*waitEnv, *waitResult, *waitScenario) {
+	return func(e *waitEnv, r *waitResult, sc *waitScenario) {
+		switch seq {
+		case "none-then-set":
+			sd.setDl(e, time.Time{})
+		case "set-later":
+			sd.setDl(e, time.Now().Add(waitDl))
+		default:
+			sd.setDl(e, time.Now().Add(waitFar))
+		}
+		calls := waitStart(e, r, sc, sd, n)
+		if calls == nil || !waitExpectBlocked(e, r, sd, calls, "before the deadline change") {
+			return
+		}
+		var dl time.Time
+		switch seq {
+		case "set-later":
+			dl = time.Now().Add(3 * waitDl)
+		case "set-zero-set":
+			sd.setDl(e, time.Time{})
+			e.logf("deadline cleared")
+			sc.sep()
+			dl = time.Now().Add(waitDl)
+		case "set-past":
+			dl = time.Now().Add(-time.Second)
+		default:
+			dl = time.Now().Add(waitDl)
+		}
+		sd.setDl(e, dl)
+		e.logf("deadline %s -> %dms", seq, dl.Sub(e.t0).Milliseconds())
+		keyMissing, keyEarly := sd.dlKey(seq), "timeout-before-deadline:"+sd.kind
+		if n > 1 {
+			// one token for several callers: one of them may keep the timer of the replaced deadline
+			keyMissing, keyEarly = "deadline-change-multi-waiter:late:"+sd.kind, "deadline-change-multi-waiter:early:"+sd.kind
+		}
+		if sd.kind == "Accept" {
+			keyMissing, keyEarly = sd.dlKey(seq), sd.dlKey(seq)
+		}
+		by := dl.Add(waitMargin)
+		if seq == "set-past" {
+			by = time.Now().Add(waitMargin)
+		}
+		waitExpectAll(e, r, sd, calls, "timeout", dl, by, keyMissing, keyEarly, "the deadline changed while blocked ("+seq+") expired")
+	}
+}
+
+// deadline cleared while blocked: no timeout at the old deadline; the call still wakes on data
+func waitScCleared(sd *waitSide) func(*waitEnv, *waitResult, *waitScenario) {
+	return func(e *waitEnv, r *waitResult, sc *waitScenario) {
+		old := time.Now().Add(2 * waitDl)
+		sd.setDl(e, old)
+		calls := waitStart(e, r, sc, sd, 1)
+		if calls == nil || !waitExpectBlocked(e, r, sd, calls, "before the deadline was cleared") {
+			return
+		}
+		sd.setDl(e, time.Time{})
+		e.logf("deadline cleared")
+		waitAll(calls, old.Add(400*time.Millisecond))
+		r.check("cleared deadline does not fire")
+		if calls[0].returned() && calls[0].class == "timeout" {
+			calls[0].early = true
+		}
+		r.Outcome = waitClasses(calls)
+		if calls[0].returned() {
+			key := "deadline-cleared-still-fires:" + sd.kind
+			if sd.kind == "Accept" {
+				key = sd.dlKey("cleared")
+			}
+			r.violate(key, "%s: %s returned %s although its deadline had been cleared %v before it", e.name, sd.kind, calls[0].class, (2*waitDl - waitSep).Round(time.Millisecond))
+			return
+		}
+		if err := sd.wake(e, 1); err != nil {
+			r.setupErr = err
+			return
+		}
+		waitExpectAll(e, r, sd, calls, sd.okClass, time.Time{}, time.Now().Add(waitMargin), "lost-wakeup-after-cleared-deadline:"+sd.kind, "", "what the call waits for became possible after its deadline was cleared")
+	}
+}
+
+func waitScClose(sd *waitSide, n int) func(*waitEnv, *waitResult, *waitScenario) {
+	return func(e *waitEnv, r *waitResult, sc *waitScenario) {
+		calls := waitStart(e, r, sc, sd, n)
+		if calls == nil || !waitExpectBlocked(e, r, sd, calls, "before Close") {
+			return
+		}
+		sd.closeIt(e)
+		e.logf("Close")
+		waitExpectAll(e, r, sd, calls, "closed", time.Time{}, time.Now().Add(waitMargin), "close-does-not-wake:"+sd.kind, "", "Close")
+	}
+}
+
+func waitScSockErr(sd *waitSide, n int) func(*waitEnv, *waitResult, *waitScenario) {
+	return func(e *waitEnv, r *waitResult, sc *waitScenario) {
+		calls := waitStart(e, r, sc, sd, n)
+		if calls == nil || !waitExpectBlocked(e, r, sd, calls, "before the socket error") {
+			return
+		}
+		sd.failIt(e)
+		e.logf("socket error injected")
+		waitExpectAll(e, r, sd, calls, "sockerr", time.Time{}, time.Now().Add(waitMargin), "socket-error-does-not-wake:"+sd.kind, "", "the socket reported an error")
+	}
+}
+
+// n messages in n separate datagrams: every datagram posts its own token
+func waitScReadSeparate(n int) func(*waitEnv, *waitResult, *waitScenario) {
+	return func(e *waitEnv, r *waitResult, sc *waitScenario) {
+		sd := &waitReadSide
+		calls := waitStart(e, r, sc, sd, n)
+		if calls == nil || !waitExpectBlocked(e, r, sd, calls, "before the data") {
+			return
+		}
+		for i := 0; i < n; i++ {
+			if _, err := e.ss.Write([]byte(fmt.Sprintf("separate-%d", i))); err != nil {
+				r.setupErr = err
+				return
+			}
+			sc.sep()
+		}
+		waitExpectAll(e, r, sd, calls, "data", time.Time{}, time.Now().Add(waitMargin), "read-data-lost-wakeup:separate-datagrams", "", "one message per blocked reader arrived, each in its own datagram")
+	}
+}
+
+// two readers with 4-byte buffers, ONE 8-byte message: the second half stays in bufptr
+func waitScReadShort(e *waitEnv, r *waitResult, sc *waitScenario) {
+	sd := &waitReadSide
+	if err := sd.prepare(e); err != nil {
+		r.setupErr = err
+		return
+	}
+	calls := []*waitCall{e.goRead(e.cs, 0, 4), e.goRead(e.cs, 1, 4)}
+	sc.sep()
+	if !waitExpectBlocked(e, r, sd, calls, "before the data") {
+		return
+	}
+	if _, err := e.ss.Write([]byte("12345678")); err != nil {
+		r.setupErr = err
+		return
+	}
+	waitExpectAll(e, r, sd, calls, "data", time.Time{}, time.Now().Add(waitMargin), "read-multi-waiter-lost-wakeup:short-buffer", "", "an 8-byte message arrived for two readers with 4-byte buffers")
+}
+
+// After Close: Write fails; Read first drains what was received, then fails; 2nd Close errors.
+func waitScAfterClose(e *waitEnv, r *waitResult, sc *waitScenario) {
+	for i := 0; i < 2; i++ {
+		if _, err := e.ss.Write([]byte(fmt.Sprintf("before-close-%d", i))); err != nil {
+			r.setupErr = err
+			return
+		}
+	}
+	sc.sep()
+	sc.sep()
+	err1 := e.cs.Close()
+	e.logf("Close -> %v", err1)
+	r.check("first Close succeeds")
+	if err1 != nil {
+		r.violate("after-close:first-close-error", "%s: first Close returned %v", e.name, err1)
+	}
+	r.check("Write after Close fails")
+	w := e.goWrite(e.cs, 0, []byte("after close"))
+	waitAll([]*waitCall{w}, time.Now().Add(waitMargin))
+	if !w.returned() || w.class == "written" {
+		r.violate("after-close:write-succeeds", "%s: Write after Close: %s", e.name, waitJoin(waitClasses([]*waitCall{w})))
+	}
+	r.check("Read after Close drains, then fails")
+	var got []string
+	for i := 0; i < 3; i++ {
+		c := e.goRead(e.cs, i, 256)
+		waitAll([]*waitCall{c}, time.Now().Add(waitMargin))
+		if !c.returned() {
+			r.violate("after-close:read-blocks", "%s: Read #%d after Close did not return", e.name, i)
+			got = append(got, "blocked")
+			break
+		}
+		got = append(got, c.class)
+	}
+	r.Outcome = append([]string{}, got...)
+	if waitJoin(got) != "data,data,closed" {
+		r.violate("after-close:read-order", "%s: Reads after Close returned %s, expected data,data,closed", e.name, waitJoin(got))
+	}
+	r.check("second Close reports an error")
+	if err2 := e.cs.Close(); err2 == nil {
+		r.violate("after-close:second-close-nil", "%s: second Close returned nil", e.name)
+	}
+}
+
+func waitScAfterCloseListener(e *waitEnv, r *waitResult, sc *waitScenario) {
+	err1 := e.l.Close()
+	r.check("first Close succeeds")
+	if err1 != nil {
+		r.violate("after-close:listener-first-close-error", "%s: first Listener.Close returned %v", e.name, err1)
+	}
+	r.check("Accept after Close fails")
+	a := e.goAccept(0)
+	waitAll([]*waitCall{a}, time.Now().Add(waitMargin))
+	r.Outcome = waitClasses([]*waitCall{a})
+	if !a.returned() || a.class != "closed" {
+		r.violate("after-close:accept", "%s: Accept after Listener.Close: %s", e.name, waitJoin(r.Outcome))
+	}
+	r.check("second Close reports an error")
+	if err2 := e.l.Close(); err2 == nil {
+		r.violate("after-close:listener-second-close-nil", "%s: second Listener.Close returned nil", e.name)
+	}
+}
+
+// ---------------------------------------------------------------------------- catalogue and driver
+
+func waitCatalogue(thorough bool) []*waitScenario {
+	var out []*waitScenario
+	add := func(name, kind string, n int, pair bool, run func(*waitEnv, *waitResult, *waitScenario)) {
+		out = append(out, &waitScenario{name: fmt.Sprintf("%s/%s/n=%d", kind, name, n), kind: kind, callers: n, pair: pair, run: run})
+	}
+	sides := []*waitSide{&waitReadSide, &waitWriteSide, &waitAcceptSide}
+	ns := []int{1, 2, 3}
+	for _, sd := range sides {
+		pair := sd.kind != "Accept"
+		for _, n := range ns {
+			key := map[string]string{"Read": "read-multi-waiter-lost-wakeup", "Write": "write-window-lost-wakeup", "Accept": "accept-lost-wakeup"}[sd.kind]
+			if sd.kind == "Read" && n == 1 {
+				key = "read-data-lost-wakeup"
+			}
+			add("wake", sd.kind, n, pair, waitScWake(sd, n, key))
+			add("close", sd.kind, n, pair, waitScClose(sd, n))
+			add("socket-error", sd.kind, n, pair, waitScSockErr(sd, n))
+			if n < 3 || thorough {
+				add("deadline-before-call", sd.kind, n, pair, waitScDeadlineBefore(sd, n, false))
+			}
+			if n == 1 || thorough {
+				add("deadline-past-before-call", sd.kind, n, pair, waitScPastBefore(sd, n))
+			}
+		}
+		for _, seq := range []string{"none-then-set", "set-later", "set-earlier", "set-zero-set", "set-past"} {
+			add("deadline-"+seq, sd.kind, 1, pair, waitScDeadlineChange(sd, seq, 1))
+		}
+		add("deadline-cleared", sd.kind, 1, pair, waitScCleared(sd))
+		// several callers parked under a deadline that is then extended
+		add("deadline-set-later", sd.kind, 2, pair, waitScDeadlineChange(sd, "set-later", 2))
+		if thorough {
+			add("deadline-set-later", sd.kind, 3, pair, waitScDeadlineChange(sd, "set-later", 3))
+			add("deadline-set-earlier", sd.kind, 2, pair, waitScDeadlineChange(sd, "set-earlier", 2))
+		}
+	}
+	add("deadline-before-call-SetDeadline", "Read", 1, true, waitScDeadlineBefore(&waitReadSide, 1, true))
+	add("deadline-before-call-SetDeadline", "Write", 1, true, waitScDeadlineBefore(&waitWriteSide, 1, true))
+	add("wake-separate-datagrams", "Read", 2, true, waitScReadSeparate(2))
+	if thorough {
+		add("wake-separate-datagrams", "Read", 3, true, waitScReadSeparate(3))
+	}
+	add("wake-short-buffer", "Read", 2, true, waitScReadShort)
+	add("after-close", "Read", 1, true, waitScAfterClose)
+	add("after-close", "Accept", 1, false, waitScAfterCloseListener)
+	return out
+}
+
+func waitRunScenario(sc *waitScenario) *waitResult {
+	r := &waitResult{Name: sc.name, Kind: sc.kind, Callers: sc.callers, checks: map[string]int{}}
+	e, err := waitNewEnv(sc.name, sc.pair)
+	if err != nil {
+		r.setupErr = err
+		return r
+	}
+	defer func() {
+		e.teardown()
+		e.mu.Lock()
+		r.Log = append([]string{}, e.log...)
+		e.mu.Unlock()
+	}()
+	e.t0 = time.Now()
+	sc.run(e, r, sc)
+	return r
+}
+
+func TestVerifC13(t *testing.T) {
+	rng := newRng(vSeed())
+	rep := newReport("C13")
+	lg := newVlog(t, "C13.log")
+	defer lg.close()
+
+	rounds := 1
+	if vThorough() {
+		rounds = 3
+	}
+	var scs []*waitScenario
+	for round := 0; round < rounds; round++ {
+		for _, sc := range waitCatalogue(vThorough()) {
+			sc.jitter = time.Duration(rng.intn(30)) * time.Millisecond // every random choice from the one stream
+			if rounds > 1 {
+				sc.name = fmt.Sprintf("%s/round=%d", sc.name, round)
+			}
+			scs = append(scs, sc)
+		}
+	}
+	filter := strings.TrimSpace(strings.ToLower(waitGetenv("VERIF_C13_ONLY", "")))
+
+	results := make([]*waitResult, len(scs))
+	sem := make(chan struct{}, 24)
+	var wg sync.WaitGroup
+	for i, sc := range scs {
+		if filter != "" && !strings.Contains(strings.ToLower(sc.name), filter) {
+			continue
+		}
+		wg.Add(1)
+		go func(i int, sc *waitScenario) {
+			defer wg.Done()
+			sem <- struct{}{}
+			defer func() { <-sem }()
+			results[i] = waitRunScenario(sc)
+		}(i, sc)
+	}
+	wg.Wait()
+
+	outcomes := map[string][]string{}
+	for i, r := range results {
+		if r == nil {
+			continue
+		}
+		sc := scs[i]
+		lg.printf("scenario %s jitter=%dms\n", r.Name, sc.jitter.Milliseconds())
+		for _, l := range r.Log {
+			lg.printf("  %s\n", l)
+		}
+		lg.printf("  -> outcome=[%s] blocked_before_event=%v violations=%d\n", waitJoin(r.Outcome), r.Blocked, len(r.violations))
+		if r.setupErr != nil {
+			lg.printf("  SETUP ERROR %v\n", r.setupErr)
+			t.Errorf("scenario %s could not be set up: %v", r.Name, r.setupErr)
+			continue
+		}
+		rep.Cases++
+		rep.Steps += len(r.Log)
+		if r.Blocked {
+			rep.Nontrivial++
+		}
+		rep.Distribution[fmt.Sprintf("%s/n=%d", r.Kind, r.Callers)]++
+		for m, k := range r.checks {
+			rep.Monitors[m] += k
+		}
+		outcomes[r.Name] = r.Outcome
+		for _, v := range r.violations {
+			rep.violate(v.key, v.what, map[string]any{"scenario": r.Name, "seed": vSeed(), "jitter_ms": sc.jitter.Milliseconds(), "outcome": r.Outcome, "events": r.Log,
+				"how": "VERIF_C13_ONLY='" + strings.Split(r.Name, "/round=")[0] + "' bin/check C13 --quick"})
+		}
+		if i < 400 && len(r.violations) == 0 {
+			rep.sample(map[string]any{"scenario": r.Name, "outcome": r.Outcome, "events": r.Log})
+		}
+	}
+	rep.Extra["outcomes"] = outcomes
+	rep.Extra["separation_ms"] = waitSep.Milliseconds()
+	rep.Extra["margin_ms"] = waitMargin.Milliseconds()
+	rep.write(t, "C13.report.json")
+}
+
+func waitGetenv(k, d string) string {
+	if v := strings.TrimSpace(os.Getenv(k)); v != "" {
+		return v
+	}
+	return d
+}
+
+// ---------------------------------------------------------------------------- boundary B11 probe
+
+// waitProbeB11 tries to force the two-event race of boundary B11 on the real code: the deadline
+// is extended an instant before the old one fires and the blocked caller is not scheduled in
+// between (one P, the setter spins across the old deadline), so that its select finds both the
+// wake-up token and the old timer ready.  Returns how many of `iters` calls returned a timeout
+// before the extended deadline.
+func waitProbeB11(iters int, write bool) (early int, err error) {
+	e, err := waitNewEnv("b11", true)
+	if err != nil {
+		return 0, err
+	}
+	defer e.teardown()
+	sd := &waitReadSide
+	if write {
+		sd = &waitWriteSide
+	}
+	if err := sd.prepare(e); err != nil {
+		return 0, err
+	}
+	for i := 0; i < iters; i++ {
+		old := time.Now().Add(40 * time.Millisecond)
+		sd.setDl(e, old)
+		c := sd.call(e, i)
+		time.Sleep(20 * time.Millisecond)
+		for time.Until(old) > 50*time.Microsecond { // spin: keep the P
+		}
+		ext := old.Add(300 * time.Millisecond)
+		sd.setDl(e, ext)
+		for time.Since(old) < 2*time.Millisecond { // the old deadline passes while the caller cannot run
+		}
+		<-c.done
+		if c.class == "timeout" && c.at.Before(ext) {
+			early++
+		}
+		if c.class != "timeout" {
+			return early, fmt.Errorf("unexpected result %s", c.class)
+		}
+	}
+	return early, nil
+}
+
+// TestVerifC13B11 is a diagnostic (not part of the check): run with GOMAXPROCS=1.
+func TestVerifC13B11(t *testing.T) {
+	for _, w := range []bool{false, true} {
+		early, err := waitProbeB11(20, w)
+		t.Logf("B11 probe write=%v: %d of 20 calls returned a timeout before the extended deadline (err=%v)", w, early, err)
+	}
+}
